@@ -798,6 +798,7 @@ func nodeHistory(rng *rand.Rand, out *Out) {
 		length += 200
 	}
 	busyUntil := length - 40
+	probes := rng.Intn(3) != 0
 	for i := int64(0); i < length; i++ {
 		if i < busyUntil {
 			for k := 0; k < 2; k++ {
@@ -813,8 +814,36 @@ func nodeHistory(rng *rand.Rand, out *Out) {
 			}
 		}
 		h.momentum()
+		if probes && rng.Intn(25) == 0 {
+			probeConsensus(rng, h.nd.Cs, *FrontierOf(h.nd.Ch).Timestamp, out)
+		}
 	}
 	h.finish()
+}
+
+
+// read-only consensus queries (what the RPC layer and its 5-minute cache do on a running node): statistics of the
+// running and of earlier epochs, weights, delegations. They must not influence anything the node computes later
+// ("the credited amounts are a function of the chain alone"); asked at random moments on the producer and on the
+// follower, whose results are compared at the end with a cold consensus module.
+func probeConsensus(rng *rand.Rand, cs consensus.Consensus, now time.Time, out *Out) {
+	rd := cs.FrontierPillarReader()
+	cur := rd.EpochTicker().ToTick(now)
+	for k := 0; k < 1+rng.Intn(3); k++ {
+		e := cur
+		if d := uint64(rng.Intn(3)); d <= e {
+			e -= d
+		}
+		switch rng.Intn(4) {
+		case 0, 1:
+			_, _ = rd.EpochStats(e)
+		case 2:
+			_, _ = rd.GetPillarWeights()
+		default:
+			_, _ = rd.GetPillarDelegationsByEpoch(e)
+		}
+	}
+	out.Count("node:read-only-consensus-probe")
 }
 
 // end-of-history oracles
@@ -921,6 +950,9 @@ func (h *nodeHist) follower() {
 	okChain := true
 	for lo := uint64(2); lo <= top; {
 		hi := lo + uint64(40+h.rng.Intn(260))
+		if h.rng.Intn(3) == 0 {
+			hi = lo + uint64(h.rng.Intn(40))
+		}
 		if hi > top {
 			hi = top
 		}
@@ -931,6 +963,9 @@ func (h *nodeHist) follower() {
 			break
 		}
 		lo = hi + 1
+		if h.rng.Intn(2) == 0 {
+			probeConsensus(h.rng, f.Cs, *f.Frontier().Timestamp, h.out)
+		}
 	}
 	if !okChain {
 		return
